@@ -81,6 +81,12 @@ func genDelegationExtension(ipv4Netblocks []net.IPNet) (*pkix.Extension, error) 
 }
 
 func decodeIPV4AddressChoice(encodedBlock asn1.BitString) (net.IPNet, error) {
+	if encodedBlock.BitLength < 0 || encodedBlock.BitLength > 32 {
+		return net.IPNet{}, errors.New("invalid ipv4 address prefix length")
+	}
+	if len(encodedBlock.Bytes) < (encodedBlock.BitLength+7)/8 {
+		return net.IPNet{}, errors.New("ipv4 address prefix is too short")
+	}
 	var encodedIP [4]byte
 	for i := 0; (i * 8) < encodedBlock.BitLength; i++ {
 		encodedIP[i] = encodedBlock.Bytes[i]
